@@ -35,12 +35,9 @@ Inductive obsitem :=
 | OThr (i : N) (thr off n : Z) (r : list (N * Z)).
 
 Inductive c13case :=
-| Case (bs ext : Z) (paint0 : list (iv * N)) (obs0 : list obsitem) (steps : list (rop * N * list obsitem))
-(* the stored history of the recorded finding C13-mutate-supervoxel-ids (a voxel edit of a block whose
-   supervoxels were merged: outside the guard of the theorem); judged with its own class code *)
-| KnownMutate (bs ext : Z) (paint0 : list (iv * N)) (obs0 : list obsitem) (steps : list (rop * N * list obsitem)).
+| Case (bs ext : Z) (paint0 : list (iv * N)) (obs0 : list obsitem) (steps : list (rop * N * list obsitem)).
 Definition case_parts (c : c13case) :=
-  match c with Case a b p o s | KnownMutate a b p o s => (a, b, p, o, s) end.
+  match c with Case a b p o s => (a, b, p, o, s) end.
 
 (* ---------- geometry of the slab volume ---------- *)
 Definition in_yz (ext : Z) (p : pos) : bool := (0 <=? pY p) && (pY p <? ext) && (0 <=? pZ p) && (pZ p <? ext).
@@ -174,8 +171,7 @@ Definition model_ok (c : c13case) : bool :=
 (* ---------- spec_class: the property on the observed answers ---------- *)
 (* classes: 1 panic / server error on a well-formed request; 2 block store not a partition of one
    element set; 3 tag view; 4 label view; 5 count; 6 top/threshold/counts; 7 spatial query;
-   8 partner's relationship not updated / removed; 9 element set is not what the requests say;
-   20 see [spec_class] *)
+   8 partner's relationship not updated / removed; 9 element set is not what the requests say *)
 Definition tb_all (tb : list obsitem) : list (pos * list elem) :=
   match find (fun o => match o with OAll _ => true | _ => false end) tb with Some (OAll bl) => bl | _ => [] end.
 Definition tb_body (ext : Z) (tb : list obsitem) (p : pos) : N :=
@@ -251,25 +247,7 @@ Definition spec_plain (c : c13case) : nat :=
   | O => spec_steps bs ext tb steps
   | k => k
   end.
-(* class 20: some label list names an element whose voxel belongs to another body (the stale
-   listing left by mutateBlock).  Returned only for the KnownMutate history and only when the ordinary
-   verdict is a label-view / count failure (4, 5, 6) and the stale listing is in the final answers;
-   any other failure of that history keeps its own code, and every other case kind keeps all codes. *)
-Definition final_table (c : c13case) : list obsitem :=
-  let '(_, _, _, obs0, steps) := case_parts c in
-  fold_left (fun tb st => upd_all tb (snd st)) steps (upd_all [] obs0).
-Definition stale_listing (ext : Z) (tb : list obsitem) : bool :=
-  existsb (fun o => match o with
-                    | OLabel l false es => existsb (fun x => negb (tb_body ext tb (e_pos x) =? l)%N) es
-                    | _ => false
-                    end) tb.
-Definition spec_class (c : c13case) : nat :=
-  match c with
-  | Case _ _ _ _ _ => spec_plain c
-  | KnownMutate _ ext _ _ _ =>
-    let k := spec_plain c in
-    if (Nat.eqb k 4 || Nat.eqb k 5 || Nat.eqb k 6) && stale_listing ext (final_table c) then 20%nat else k
-  end.
+Definition spec_class := spec_plain.
 
 Fixpoint classify_from (i : nat) (l : list c13case) : list (nat * nat) :=
   match l with
@@ -307,4 +285,3 @@ Definition zTop (i n : Z) (r : list (Z * Z)) := OTop (Z.to_N i) n (zlz r).
 Definition zThr (i thr off n : Z) (r : list (Z * Z)) := OThr (Z.to_N i) thr off n (zlz r).
 Definition zStep (r : rop) (cls : Z) (os : list obsitem) : rop * N * list obsitem := (r, Z.to_N cls, os).
 Definition zCase (bs ext : Z) (paint0 : list (iv * Z)) := Case bs ext (zpaint paint0).
-Definition zKnownMutate (bs ext : Z) (paint0 : list (iv * Z)) := KnownMutate bs ext (zpaint paint0).
